@@ -6,5 +6,6 @@ CONSTANTS
   Kinds = {"if"}
   GenVars = {"x", "y"}
   SimpleKinds = {"assign", "use", "call", "return", "raise", "break", "continue"}
+  Shape = "any"
 INVARIANT InvC09Strict
 CHECK_DEADLOCK FALSE
